@@ -236,6 +236,17 @@ pub type MRec = Arc<Mutex<MRecorder>>;
 struct Reader {
     rec: MRec,
     assoc: u16,
+    /// a handler handed to `read_with_handler` (its fragments are recorded with read type "Custom:...")
+    custom: bool,
+}
+
+/// a recording handler for `AssociationHandle::read_with_handler`
+pub fn custom_reader(rec: MRec, assoc: u16) -> Box<dyn ReadHandler> {
+    Box::new(Reader {
+        rec,
+        assoc,
+        custom: true,
+    })
 }
 
 fn time_of(t: Option<Time>) -> Option<(u64, bool)> {
@@ -274,7 +285,11 @@ impl ReadHandler for Reader {
     fn begin_fragment(&mut self, read_type: ReadType, header: ResponseHeader) -> MaybeAsync<()> {
         self.rec.lock().unwrap().push(MEv::BeginFragment {
             assoc: self.assoc,
-            read_type: format!("{:?}", read_type),
+            read_type: if self.custom {
+                format!("Custom:{:?}", read_type)
+            } else {
+                format!("{:?}", read_type)
+            },
             seq: header.control.seq.value(),
             uns: header.control.uns,
             fir: header.control.fir,
@@ -635,6 +650,7 @@ impl MasterNode {
                     Box::new(Reader {
                         rec: rec.clone(),
                         assoc,
+                        custom: false,
                     }),
                     Box::new(AHandler {
                         rec: rec.clone(),
